@@ -212,3 +212,117 @@ example : (Account.update ⟨true, 3, 10, none⟩ false 20) = ⟨true, 3, 10, no
 example : (Account.update ⟨false, 0, 0, none⟩ true 20) = ⟨true, 1, 20, none⟩ := by decide
 
 end Gtfs.Journal
+
+namespace Gtfs.Journal
+
+/-! ## accounting over a whole history -/
+
+def newAcct : Account := acct newTrip
+
+/-- what one feed does to the account of UID `k`: its updates for `k` are applied in order; if it has
+    none and the previous feed had some, the trip is marked past at this feed's time.
+    The state is the account (none: never seen) and whether the previous feed had the trip. -/
+def acctStep (k : Str) (st : Option Account × Bool) (f : Feed) : Option Account × Bool :=
+  let us := f.trips.filter fun u => uidOfTrip u == k
+  let a1 := us.foldl (fun o u => some ((o.getD newAcct).update u.vehicle.isSome f.createdAt)) st.1
+  ((if st.2 && us.isEmpty then a1.map (·.markPast f.createdAt) else a1), !us.isEmpty)
+
+def acctRun (k : Str) (fs : List Feed) : Option Account × Bool := fs.foldl (acctStep k) (none, false)
+
+theorem applyUpdates_acct (t : Int) (o : Option Trip) (us : List RtTrip) :
+    (applyUpdates t o us).map acct
+      = us.foldl (fun o u => some ((o.getD newAcct).update u.vehicle.isSome t)) (o.map acct) := by
+  induction us generalizing o with
+  | nil => rfl
+  | cons u r ih =>
+    simp only [applyUpdates, List.foldl_cons] at ih ⊢
+    rw [ih]
+    congr 1
+    cases o with
+    | none => simp [newAcct, C15_update_refines]
+    | some tr => simp [C15_update_refines]
+
+theorem contains_uid_iff (k : Str) (us : List RtTrip) :
+    (us.map uidOfTrip).contains k = !(us.filter fun u => uidOfTrip u == k).isEmpty := by
+  induction us with
+  | nil => rfl
+  | cons u r ih =>
+    by_cases h : uidOfTrip u = k
+    · simp [List.filter_cons, h]
+    · have h' : (uidOfTrip u == k) = false := by simpa using h
+      have h'' : ¬ k = uidOfTrip u := fun e => h e.symm
+      simp only [List.map_cons, List.contains_cons, List.filter_cons, h', ih]
+      simp [h'']
+
+/-- **C15 (accounting over the whole history).** After any sequence of feeds the entry of UID `k`
+    carries exactly the account the specification computes feed by feed – the updates of `k` applied
+    in order (ignored once assigned when they lack a vehicle), and the mark set by the first feed from
+    which `k` is missing after a feed that had it. -/
+theorem C15_account_history (fs : List Feed) (k : Str) :
+    (alookup k (run fs).trips).map acct = (acctRun k fs).1 ∧ (run fs).active.contains k = (acctRun k fs).2 := by
+  unfold run acctRun
+  suffices H : ∀ (fs : List Feed) (s : State) (st : Option Account × Bool),
+      (alookup k s.trips).map acct = st.1 → s.active.contains k = st.2 →
+      (alookup k (fs.foldl stepFeed s).trips).map acct = (fs.foldl (acctStep k) st).1 ∧
+      (fs.foldl stepFeed s).active.contains k = (fs.foldl (acctStep k) st).2 from
+    H fs {} (none, false) rfl rfl
+  intro fs
+  induction fs with
+  | nil => intro s st h1 h2; exact ⟨h1, h2⟩
+  | cons f r ih =>
+    intro s st h1 h2
+    simp only [List.foldl_cons]
+    apply ih
+    · rw [stepFeed_lookup, Option.map_map]
+      unfold acctStep
+      simp only
+      rw [← h1, ← h2, ← applyUpdates_acct, contains_uid_iff]
+      cases hc : (s.active.contains k && !!(f.trips.filter fun u => uidOfTrip u == k).isEmpty)
+      · have : (s.active.contains k && (f.trips.filter fun u => uidOfTrip u == k).isEmpty) = false := by simpa using hc
+        simp only [this, Bool.false_eq_true, if_false]
+        cases applyUpdates f.createdAt (alookup k s.trips) (f.trips.filter fun u => uidOfTrip u == k) <;> simp [hc]
+      · have : (s.active.contains k && (f.trips.filter fun u => uidOfTrip u == k).isEmpty) = true := by simpa using hc
+        simp only [this, if_true, Option.map_map]
+        cases applyUpdates f.createdAt (alookup k s.trips) (f.trips.filter fun u => uidOfTrip u == k) with
+        | none => rfl
+        | some tr => simp [hc, C15_markPast_refines]
+    · rw [stepFeed_active, contains_uid_iff]
+      rfl
+
+/-- feeds that do not mention `k` -/
+def Lacks (k : Str) (f : Feed) : Prop := (f.trips.filter fun u => uidOfTrip u == k) = []
+
+theorem acctStep_lacks (k : Str) (st : Option Account × Bool) (f : Feed) (h : Lacks k f) :
+    acctStep k st f = ((if st.2 then st.1.map (·.markPast f.createdAt) else st.1), false) := by
+  unfold acctStep
+  rw [h]
+  simp
+
+/-- **the marked-past time is the time of the first feed from which the trip was missing after its
+    last update** – and later feeds lacking it change nothing: if the history is `pre`, then a feed
+    `g` lacking `k`, then any number of further feeds lacking `k`, the account is the one after `pre`
+    marked (once) with `g`'s time when `pre` ended with a feed that had `k`. -/
+theorem C15_marked_past_time (k : Str) (pre : List Feed) (g : Feed) (rest : List Feed)
+    (hg : Lacks k g) (hrest : ∀ f ∈ rest, Lacks k f) :
+    (acctRun k (pre ++ g :: rest)).1
+      = if (acctRun k pre).2 then (acctRun k pre).1.map (·.markPast g.createdAt) else (acctRun k pre).1 := by
+  unfold acctRun
+  rw [List.foldl_append, List.foldl_cons, acctStep_lacks k _ g hg]
+  generalize (if (List.foldl (acctStep k) (none, false) pre).2 then Option.map (·.markPast g.createdAt) (List.foldl (acctStep k) (none, false) pre).1
+    else (List.foldl (acctStep k) (none, false) pre).1) = a
+  induction rest generalizing a with
+  | nil => rfl
+  | cons f r ih =>
+    simp only [List.foldl_cons]
+    rw [acctStep_lacks k _ f (hrest f (by simp))]
+    simp only [Bool.false_eq_true, if_false]
+    exact ih (fun x hx => hrest x (by simp [hx])) a
+
+/-- non-vacuity: a trip seen (with a vehicle) in the first feed and missing from the next two is marked
+    past with the second feed's time -/
+example :
+    let u : RtTrip := { id := [48, 48, 48, 49, 48, 48, 95, 65], route := [65], dir := 1, startDate := 0, startTime := 60, vehicle := some [118], stus := [] }
+    (acctRun (uidOfTrip u) [{ createdAt := 10, trips := [u] }, { createdAt := 20, trips := [] }, { createdAt := 30, trips := [] }]).1
+      = some ⟨true, 1, 10, some 20⟩ := by decide
+
+end Gtfs.Journal
